@@ -191,6 +191,18 @@ Theorem c01_jwt_decode_only_signed :
       verified mac pk_verify ec_verify (reg15 algs) src (PDict h) (co_hseg o ++ 46 :: co_pseg o) (co_sseg o).
 Proof. exact jwt_decode_only_signed. Qed.
 
+(* a symmetric key imported from raw octets IS those octets: nothing is stripped, trimmed or
+   decoded, so two octet strings that differ anywhere (a leading whitespace octet, a trailing
+   newline, ...) are two different keys *)
+Theorem c01_oct_import_exact :
+  (forall a, import_oct a = a) /\
+  (forall a b, import_oct a = import_oct b -> a = b) /\
+  (forall a, length (import_oct a) = length a).
+Proof. exact oct_import_exact. Qed.
+
+Theorem c01_oct_import_distinct : forall a b, a <> b -> import_oct a <> import_oct b.
+Proof. exact oct_import_distinct. Qed.
+
 (* the model of rfc7797/json.py BEFORE fix01 violates it: in a world where a
    flattened JWS with protected header {"alg":"HS256"} and payload "hello" is
    valid, adding the unprotected header {"b64": false, "crit": ["b64"]} makes
@@ -291,6 +303,7 @@ Proof. vm_compute. reflexivity. Qed.
 Print Assumptions c01_compact_sound.
 Print Assumptions c01_compact_sound_json_model.
 Print Assumptions c01_jwt_decode_only_signed.
+Print Assumptions c01_oct_import_exact.
 Print Assumptions c01_flat_sound.
 Print Assumptions c01_general_sound.
 Print Assumptions c01_none_never_verifies.
